@@ -34,7 +34,7 @@ CHARSETS = ["utf-8", "UTF-8", "utf8", "iso-8859-1", "latin-1", "ascii", "us-asci
             "idna", "punycode", "hex", "base64", "rot13", "zlib", "unicode_escape", "raw_unicode_escape", "undefined",
             "x-unknown", "klingon", "a\x00b", "utf-8\x00", "\udcff" if False else "latin-1\x00x", "utf-9", "", "utf-8 ", "ISO_8859-1:1987", "cp65001", "mbcs", "none", "binary"]
 SAMPLE_TEXT = ["hello\n", "héllo wörld\n", "日本語テキスト\n", "# Title\n=> gemini://x/ link\n", "", "a" * 100, "€uro ≠ £", "\ufeffstarts with U+FEFF\n",
-               "\ufeff"]
+               "\ufeff", "# Title\r\n=> gemini://x/ link\r\n\r\ntext\r\n", "lone\rCR and \r\n pair\n\r", "\r\n", "trailing blanks  \n\tand tabs\t\n"]
 
 
 @st.composite
